@@ -33,14 +33,15 @@ def plan(tier):
     g.append({"variant": "asan", "name": "selftest-asan", "workers": 1, "cases": 1, "params": {"mon": "selftest"}})
     g.append({"variant": "guard", "name": "selftest-guard", "workers": 1, "cases": 2, "params": {"mon": "selftest"}})
     for p in _available():
-        n = {"C08": 300, "C15": 25, "C16": 25, "C17": 5000, "C18": 400, "C20": 25}.get(p, 30) * (1 if q else 12)
-        g.append({"variant": "asan", "name": "asan-replay-" + p, "workers": 1 if q else 2, "cases": n, "params": {"mon": "replay", "prop": p}})
-        g.append({"variant": "guard", "name": "guard-replay-" + p, "workers": 1 if q else 2, "cases": n, "params": {"mon": "replay", "prop": p}})
+        n = {"C08": 300, "C15": 60, "C16": 60, "C17": 5000, "C18": 600, "C20": 60}.get(p, 30) * (1 if q else 6)
+        w = {"C15": 4, "C16": 4, "C18": 3, "C20": 2}.get(p, 1) if q else 4
+        g.append({"variant": "asan", "name": "asan-replay-" + p, "workers": w, "cases": n, "params": {"mon": "replay", "prop": p}})
+        g.append({"variant": "guard", "name": "guard-replay-" + p, "workers": max(1, w // 2), "cases": n, "params": {"mon": "replay", "prop": p}})
         if not q:
             g.append({"variant": "guard", "name": "guard-under-replay-" + p, "workers": 1, "cases": n, "params": {"mon": "replay", "prop": p},
                       "env": {"VGUARD_LAYOUT": "under"}})
-    hc = 1500 if q else 20000
-    g.append({"variant": "asan", "name": "asan-hostile", "workers": 2, "cases": hc, "params": {"mon": "hostile"}})
+    hc = 10000 if q else 60000
+    g.append({"variant": "asan", "name": "asan-hostile", "workers": 4, "cases": hc, "params": {"mon": "hostile"}})
     g.append({"variant": "guard", "name": "guard-hostile", "workers": 2, "cases": hc, "params": {"mon": "hostile"}})
     g.append({"variant": "guard", "name": "guard-under-hostile", "workers": 1, "cases": hc, "params": {"mon": "hostile"}, "env": {"VGUARD_LAYOUT": "under"}})
     g.append({"variant": "guard", "name": "guard-strict-hostile", "workers": 1, "cases": hc, "params": {"mon": "hostile", "noblas": True},
